@@ -169,6 +169,43 @@ def es_formula(tx, ty, taumax, lag):
     return strength(xy, yx), strength(yx, xy)
 
 
+def es_formula_float(tx, ty, taumax, lag):
+    """the same published double sum evaluated in IEEE double (Python floats), every operation on
+    times in the order the paper writes it: t_y + lag, t_x - t_y, the four waiting times, their
+    minimum halved (exact), `0 < d <= tau`.  Independent of the Lean model and of the vectorised
+    code; agrees with `es_formula` whenever no operation rounds.  Returns the pair of doubles
+    (count / sqrt(norm), Python's correctly rounded math.sqrt and /)."""
+    tx = [float(t) for t in tx]
+    ty = [float(t) + float(lag) for t in ty]
+    lx, ly = len(tx), len(ty)
+    if lx == 0 or ly == 0:
+        return float("nan"), float("nan")
+    if lx <= 2 or ly <= 2:
+        return 0.0, 0.0
+    xy, yx, same = [], [], 0
+    for i in range(1, lx - 1):
+        for j in range(1, ly - 1):
+            tau = min(tx[i + 1] - tx[i], tx[i] - tx[i - 1],
+                      ty[j + 1] - ty[j], ty[j] - ty[j - 1]) / 2
+            tau = min(tau, float(taumax))
+            d = tx[i] - ty[j]
+            if d == 0:
+                same += 1
+            elif 0 < d <= tau:
+                xy.append((i, j))
+            elif 0 < -d <= tau:
+                yx.append((i, j))
+
+    def strength(mine, other):
+        oi = {i for i, _ in other}
+        oj = {j for _, j in other}
+        c = 0.5 * same
+        for i, j in mine:
+            c += 0.5 if (i in oi or j in oj) else 1.0
+        return c / math.sqrt((lx - 2) * (ly - 2))
+    return strength(xy, yx), strength(yx, xy)
+
+
 def eca_formula(t1, t2, taumax, lag, window=None):
     """[Odenweller2020] coincidence rates, r = (1/(N - n)) sum_i Theta[sum_j 1_[dT1,dT2](…)],
     boundary events excluded by their *times*.  window None: the four rates of
@@ -453,6 +490,10 @@ def run(ctx):
         reqs.append("esf64" + req[2:])
         impl.append("raise:" + type(r).__name__ if isinstance(r, Exception)
                     else ",".join(exact_f64(v) for v in r))
+        # round 5: the model with every operation on times rounded to double (`esFl`); on the
+        # dyadic data of this stream no operation rounds (theorem es_float_lattice)
+        reqs.append("esfl" + req[2:])
+        impl.append(impl[-1])
         meta.append(("es", x, y, ts1, ts2, tm, lag))
         ctx.case(req, nx >= 3 and ny >= 3,
                  {"call": "event_synchronization", "x": x, "y": y, "ts1": ts1, "ts2": ts2,
@@ -622,6 +663,102 @@ def run(ctx):
                    "(esSpec/ecaFormula/ecaRateFormula) == event_synchronization / "
                    "event_coincidence_analysis / _eca_coincidence_rate", reqs, impl)
     ctx.extra["pair_calls_compared"] = len(reqs)
+
+    # ------------------------------------------------------------------
+    # round 5: time stamps whose sums / differences are NOT representable — the float
+    # operations inside the counting (`ey + lag`, `ex - ey`, `np.diff`) round, and decisions
+    # `dstxy2 <= tau2` hinge on the rounding.  Model: `esFl` (= esSeriesR rn53s), bit for bit.
+    # Oracle: the published double sum in IEEE double, operation order of the paper.
+    # ------------------------------------------------------------------
+    def gen_rounding_ts(T):
+        kind = rng.choice(["tenths", "tenths", "thirds", "sevenths", "random", "offset", "bigoffset",
+                           "cumsum"])
+        if kind == "tenths":
+            o = rng.choice([0.0, 0.0, 0.3, 100.0])
+            return [o + 0.1 * i for i in range(T)], kind
+        if kind == "thirds":
+            return [i / 3.0 for i in range(T)], kind
+        if kind == "sevenths":
+            o = rng.choice([0.0, 1e3])
+            return [o + i / 7.0 for i in range(T)], kind
+        if kind == "random":
+            return sorted(rng.random() * rng.choice([1.0, 64.0]) for _ in range(T)), kind
+        if kind == "offset":
+            o = rng.choice([1e6, 2.0 ** 30 + 0.1, 1e9])
+            return [o + 0.3 * i for i in range(T)], kind
+        if kind == "bigoffset":
+            # ulp 0.125 .. 2: most of a step of 0.7 is lost
+            o = rng.choice([1e15, 2.0 ** 52, 7e15])
+            out, t = [], o
+            for _ in range(T):
+                out.append(t)
+                t = t + rng.choice([0.7, 1.3, 2.0, 3.1])
+            return out, kind
+        t, out = rng.choice([0.0, -0.7]), []
+        for _ in range(T):
+            out.append(t)
+            t += rng.choice([0.1, 0.2, 0.3, 0.7, 1.1])
+        return out, kind
+
+    R_LAGS = [0.0, 0.0, 0.1, -0.3, 1.0 / 3.0, 0.7, 1e-3, -0.05]
+    R_TAUS = [np.inf, np.inf, 0.1, 0.05, 0.3, 0.15, 1.0, 0.35]
+    reqs, impl = [], []
+    n_round = 0
+    for _ in range(2500 if quick else 40000):
+        T = rng.choice([5, 6, 7, 8, 9, 10, 12, 14])
+        x, y = gen_pair(rng, T)
+        if rng.random() < 0.5:
+            # enough events for the counting branch
+            x = [int(v or rng.random() < 0.5) for v in x]
+            y = [int(v or rng.random() < 0.5) for v in y]
+        ts1, kind = gen_rounding_ts(T)
+        ts1 = ts1[:T]
+        if any(b <= a for a, b in zip(ts1, ts1[1:])):
+            continue
+        ts2 = ts1
+        if rng.random() < 0.15:
+            ts2, _k = gen_rounding_ts(T)
+            ts2 = ts2[:T]
+            if any(b <= a for a, b in zip(ts2, ts2[1:])):
+                ts2 = ts1
+        tm, lag = rng.choice(R_TAUS), rng.choice(R_LAGS)
+        if kind == "bigoffset":
+            tm, lag = rng.choice([np.inf, 1.0, 2.5]), rng.choice([0.0, 0.7, -1.3, 2.0])
+        ax, ay = np.array(x), np.array(y)
+        a1, a2 = relayout(np.array(ts1, dtype=float)), relayout(np.array(ts2, dtype=float))
+        r = call(lambda: ES.event_synchronization(ax, ay, ts1=a1, ts2=a2, taumax=tm, lag=lag))
+        req = (f"esfl {enc_rats(ts1)} {enc_bools(x)} {enc_rats(ts2)} {enc_bools(y)} "
+               f"{enc_rat(tm)} {enc_rat(lag)}")
+        got = "raise:" + type(r).__name__ if isinstance(r, Exception) else \
+            ",".join(exact_f64(v) for v in r)
+        reqs.append(req)
+        impl.append(got)
+        tx, ty = times(ts1, x), times(ts2, y)
+        nx, ny = sum(x), sum(y)
+        ctx.count(f"rounding-ts:{kind}")
+        ctx.case(req, nx >= 3 and ny >= 3)
+        rep = {"call": "event_synchronization", "x": x, "y": y, "ts1": ts1, "ts2": ts2,
+               "taumax": tm, "lag": lag, "observed": got, "stream": "rounding"}
+        exp = ",".join(exact_f64(v) for v in es_formula_float(tx, ty, tm, lag))
+        if got != exp:
+            ctx.fail({"kind": "formula-float", "method": "event_synchronization"},
+                     f"event_synchronization on non-representable time stamps = {got}, the counting "
+                     f"formula evaluated in IEEE double gives {exp}", dict(rep, expected=exp))
+        # does rounding matter for this case?  (exact arithmetic on the same doubles)
+        ex_ = ",".join(show_fr(v) for v in es_formula(tx, ty, tm, lag))
+        if not isinstance(r, Exception) and ex_ != ",".join(canon_sq(v) for v in r):
+            n_round += 1
+            ctx.count("rounding-changes-the-counts")
+        if not isinstance(r, Exception):
+            for v in r:
+                if not math.isnan(v) and not (0 <= v <= 1):
+                    ctx.fail({"kind": "range", "method": "event_synchronization"},
+                             f"event synchronisation strength {v} outside [0,1]", rep)
+    ctx.correspond("Lean esFl (every operation on times rounded to double, esSeriesR rn53s) == "
+                   "event_synchronization on time stamps with non-representable sums / differences, "
+                   "bit for bit", reqs, impl)
+    ctx.extra["rounding_stream_requests"] = len(reqs)
+    ctx.extra["rounding_stream_cases_where_rounding_changes_counts"] = n_round
 
     # ------------------------------------------------------------------
     # matrix level
